@@ -238,8 +238,9 @@ func (f *Formatter) formatNode(n *html.Node, buf *strings.Builder, depth int) {
 		}
 
 	case html.ElementNode:
-		// Style/script blocks - preserve content as-is
-		if n.Data == "style" || n.Data == "script" {
+		// Style/script blocks (and the other elements whose content the parser
+		// keeps as raw text) - preserve content as-is
+		if isRawTextElement(n) {
 			f.formatRawTextElement(n, buf, indent)
 			return
 		}
@@ -340,13 +341,31 @@ func (f *Formatter) formatRawTextElement(n *html.Node, buf *strings.Builder, ind
 	}
 }
 
+// isRawTextElement reports whether the parser keeps the element's content as
+// raw text: character references are not decoded in it, so it must be written
+// back without escaping.
+func isRawTextElement(n *html.Node) bool {
+	if n.Type != html.ElementNode || n.Namespace != "" {
+		return false
+	}
+	switch n.Data {
+	case "script", "style", "noscript", "iframe", "noembed", "noframes", "xmp":
+		return true
+	}
+	return false
+}
+
 // renderPreContent recursively renders children of a <pre> element,
 // preserving whitespace and escaping text content.
 func (f *Formatter) renderPreContent(n *html.Node, buf *strings.Builder) {
 	for c := n.FirstChild; c != nil; c = c.NextSibling {
 		switch c.Type {
 		case html.TextNode:
-			buf.WriteString(escapeText(c.Data))
+			if isRawTextElement(n) {
+				buf.WriteString(c.Data)
+			} else {
+				buf.WriteString(escapeText(c.Data))
+			}
 		case html.ElementNode:
 			buf.WriteString(f.renderOpenTag(c))
 			if !isVoidElement(c.DataAtom) {
@@ -447,7 +466,11 @@ func (f *Formatter) renderInlineChildren(n *html.Node) string {
 	for c := n.FirstChild; c != nil; c = c.NextSibling {
 		switch c.Type {
 		case html.TextNode:
-			b.WriteString(escapeText(normalizeInlineText(c.Data)))
+			if isRawTextElement(n) {
+				b.WriteString(c.Data)
+			} else {
+				b.WriteString(escapeText(normalizeInlineText(c.Data)))
+			}
 		case html.CommentNode:
 			b.WriteString("<!--")
 			b.WriteString(c.Data)
